@@ -28,6 +28,9 @@ pub struct Shape {
     pub resp_body: usize,
     pub resp_trailers: usize,
     pub split: bool,
+    /// with `split`: the server handler first reads one piece of the body on the whole stream and splits then
+    /// (a split in the middle of a DATA frame), instead of splitting before the first read
+    pub late: bool,
 }
 
 pub const METHODS: [(&str, bool); 5] = [("GET", false), ("POST", false), ("OPTIONS", false), ("CONNECT", false), ("CONNECT", true)];
@@ -148,6 +151,20 @@ async fn recv_message_srv<S: h3::quic::RecvStream>(s: &mut h3::server::RequestSt
     seen.borrow_mut().done = true;
 }
 
+/// the rest of the documented pattern after the body has ended
+async fn recv_tail_srv<S: h3::quic::RecvStream>(s: &mut h3::server::RequestStream<S, Bytes>, seen: &Shared<Seen>) {
+    app_pause().await;
+    match s.recv_trailers().await {
+        Ok(Some(t)) => seen.borrow_mut().trailers = headermap_str(&t),
+        Ok(None) => seen.borrow_mut().trailers = "none".into(),
+        Err(e) => {
+            seen.borrow_mut().errors.push(format!("recv_trailers:{}", stream_class(&e)));
+            return;
+        }
+    }
+    seen.borrow_mut().done = true;
+}
+
 async fn recv_message_cli<S: h3::quic::RecvStream>(s: &mut h3::client::RequestStream<S, Bytes>, seen: &Shared<Seen>) {
     match s.recv_response().await {
         Ok(r) => seen.borrow_mut().head = format!("{} {}", r.status().as_u16(), headermap_str(r.headers())),
@@ -198,8 +215,16 @@ pub fn execute(shape: &Shape, seed: u64, explore_mode: bool) -> Outcome {
     execute_cfg(shape, seed, cfg)
 }
 
-pub fn execute_cfg(shape: &Shape, seed: u64, cfg: NetCfg) -> Outcome {
+/// bytes one endpoint may write on the request stream before it is treated as a runaway writer: four times the
+/// message (bodies, generous room for heads, trailers and framing)
+fn stream_byte_cap(shape: &Shape) -> usize {
+    let b = |i: usize| bodies()[i].iter().sum::<usize>();
+    4 * (b(shape.req_body).max(b(shape.resp_body)) + 8192)
+}
+
+pub fn execute_cfg(shape: &Shape, seed: u64, mut cfg: NetCfg) -> Outcome {
     fastrand::seed(seed);
+    cfg.max_stream_bytes = stream_byte_cap(shape);
     let net = Net::new(cfg);
     let mut ex = Exec::new();
     let server_saw = shared(Seen::default());
@@ -248,10 +273,32 @@ pub fn execute_cfg(shape: &Shape, seed: u64, cfg: NetCfg) -> Outcome {
                             *resp.headers_mut() = header_map(&header_sets()[shape3.resp_headers]);
                             let tr = trailer_sets()[shape3.resp_trailers].clone();
                             if shape3.split {
+                                // late split: one read on the whole stream first
+                                let mut body_over = false;
+                                if shape3.late {
+                                    match stream.recv_data().await {
+                                        Ok(Some(b)) => {
+                                            let v = drain(b);
+                                            saw.borrow_mut().body.extend(v);
+                                        }
+                                        Ok(None) => {
+                                            saw.borrow_mut().end_of_body += 1;
+                                            body_over = true;
+                                        }
+                                        Err(e) => {
+                                            saw.borrow_mut().errors.push(format!("recv_data:{}", stream_class(&e)));
+                                            return;
+                                        }
+                                    }
+                                }
                                 let (mut tx, mut rx) = stream.split();
                                 let saw2 = saw.clone();
                                 sp2.spawn("handler-recv", async move {
-                                    recv_message_srv(&mut rx, &saw2).await;
+                                    if body_over {
+                                        recv_tail_srv(&mut rx, &saw2).await;
+                                    } else {
+                                        recv_message_srv(&mut rx, &saw2).await;
+                                    }
                                 });
                                 let r = async {
                                     tx.send_response(resp).await?;
@@ -407,6 +454,10 @@ pub fn execute_cfg(shape: &Shape, seed: u64, cfg: NetCfg) -> Outcome {
             fps.push(h.finish());
         })
     };
+    // an execution that ran into the horizon (a livelock) contributes a violation, not 400 000 "states"
+    if q.horizon_hit {
+        fps.clear();
+    }
     let mut misuse = net.misuse(CLIENT);
     misuse.extend(net.misuse(SERVER));
     let out = Outcome {
@@ -525,12 +576,12 @@ pub fn judge(shape: &Shape, o: &Outcome) -> Vec<(String, String)> {
 }
 
 fn shape_json(s: &Shape, choices: &[u32], seed: u64) -> Value {
-    json!({"shape":[s.method,s.target,s.req_headers,s.req_body,s.req_trailers,s.status,s.resp_headers,s.resp_body,s.resp_trailers,s.split as usize],"choices":choices,"seed":seed})
+    json!({"shape":[s.method,s.target,s.req_headers,s.req_body,s.req_trailers,s.status,s.resp_headers,s.resp_body,s.resp_trailers,s.split as usize,s.late as usize],"choices":choices,"seed":seed})
 }
 
 fn shape_from(v: &Value) -> Shape {
     let a: Vec<usize> = v["shape"].as_array().unwrap().iter().map(|x| x.as_u64().unwrap() as usize).collect();
-    Shape { method: a[0], target: a[1], req_headers: a[2], req_body: a[3], req_trailers: a[4], status: a[5], resp_headers: a[6], resp_body: a[7], resp_trailers: a[8], split: a[9] != 0 }
+    Shape { method: a[0], target: a[1], req_headers: a[2], req_body: a[3], req_trailers: a[4], status: a[5], resp_headers: a[6], resp_body: a[7], resp_trailers: a[8], split: a[9] != 0, late: a.get(10).copied().unwrap_or(0) != 0 }
 }
 
 fn valid_combo(method: usize, target: usize) -> bool {
@@ -562,8 +613,8 @@ pub fn shapes(thorough: bool) -> Vec<Shape> {
                             let ph = (rh + 3) % nh;
                             let pb = (rb * 2 + rt) % nb;
                             let pt = (rt + rh) % nt;
-                            for split in [false, true] {
-                                out.push(Shape { method, target, req_headers: rh, req_body: rb, req_trailers: rt, status: st, resp_headers: ph, resp_body: pb, resp_trailers: pt, split });
+                            for (split, late) in [(false, false), (true, false), (true, true)] {
+                                out.push(Shape { method, target, req_headers: rh, req_body: rb, req_trailers: rt, status: st, resp_headers: ph, resp_body: pb, resp_trailers: pt, split, late });
                             }
                         }
                     }
@@ -590,6 +641,7 @@ pub fn shapes(thorough: bool) -> Vec<Shape> {
                         resp_body: (i + 4 * k) % (nb - 1),
                         resp_trailers: (i / 2 + k) % nt,
                         split: (i + k) % 2 == 0,
+                        late: (i + k) % 4 == 0,
                     });
                 }
             }
@@ -605,7 +657,7 @@ pub fn run(args: &Args) -> i32 {
     rep.exhaustive = true;
     let shapes = shapes(thorough);
     rep.rule = format!(
-        "{} message shapes from the product of 5 method kinds (GET, POST, OPTIONS, CONNECT, extended CONNECT) x 7 targets (absolute https/http with and without path and query, root path with a query, empty path with a query, authority-form, path + Host header) x 7 header multisets (static-table hit, name-only hit, literal, a name three times interleaved with another, 300-byte value, bytes 0x80-0xff) x 9 body piece lists (0..65536 bytes, pieces of 0,1,2,3,63,64,65,16383,16384 bytes) x 3 trailer options, independently for request and response, request stream whole or split into halves on separate tasks. Each shape: every execution with <= {bound} deviations, a deviation being a chunk cut (dense for short reads, at write-chunk boundaries +-1 otherwise) or delayed delivery on the request stream in either direction, a partial or pending write acceptance, an application pause between two receive calls, or a scheduling choice other than the FIFO default among client task, client driver, server task, handlers and split halves; plus every shape once under one-byte-per-read and once under one-byte-per-write. Body bytes are position-coded. Oracle: message in = message out. states = distinct (transport cursors, observation progress) fingerprints; non-trivial = executions with at least one deviation.",
+        "{} message shapes from the product of 5 method kinds (GET, POST, OPTIONS, CONNECT, extended CONNECT) x 7 targets (absolute https/http with and without path and query, root path with a query, empty path with a query, authority-form, path + Host header) x 7 header multisets (static-table hit, name-only hit, literal, a name three times interleaved with another, 300-byte value, bytes 0x80-0xff) x 9 body piece lists (0..65536 bytes, pieces of 0,1,2,3,63,64,65,16383,16384 bytes) x 3 trailer options, independently for request and response, request stream whole, split into halves on separate tasks before the first read, or split after the first body read (in the middle of a DATA frame when the transport cut it). Each shape: every execution with <= {bound} deviations, a deviation being a chunk cut (dense for short reads, at write-chunk boundaries +-1 otherwise) or delayed delivery on the request stream in either direction, a partial or pending write acceptance, an application pause between two receive calls, or a scheduling choice other than the FIFO default among client task, client driver, server task, handlers and split halves; plus every shape once under one-byte-per-read and once under one-byte-per-write. Body bytes are position-coded. Oracle: message in = message out. states = distinct (transport cursors, observation progress) fingerprints; non-trivial = executions with at least one deviation.",
         shapes.len()
     );
     rep.assumptions = vec![
